@@ -22,16 +22,24 @@ package main
 
 import (
 	"bufio"
+	"bytes"
 	"context"
 	"encoding/base64"
 	"encoding/json"
 	"fmt"
+	"io"
+	"log/slog"
 	"net/http"
 	"net/url"
 	"strings"
 	"time"
 
+	"golang.org/x/oauth2"
+
 	"github.com/zitadel/oidc/v3/pkg/client"
+	"github.com/zitadel/oidc/v3/pkg/client/profile"
+	"github.com/zitadel/oidc/v3/pkg/client/rp"
+	"github.com/zitadel/oidc/v3/pkg/client/rs"
 	"github.com/zitadel/oidc/v3/pkg/oidc"
 	"github.com/zitadel/oidc/v3/pkg/op"
 
@@ -51,7 +59,52 @@ type c14Client struct {
 }
 
 // c14Scripted: one fixed opening move of a history (helper-minted assertion of `client`, addressed to the own or the other issuer)
-type c14Scripted struct{ ep, host, client, aud string }
+type c14Scripted struct {
+	ep, host, client, aud string
+	forgeWith             string // (deep 3) not helper-minted: names `client` as iss = sub but is signed with THIS client's key under its key id
+}
+
+// c14LongLivedOP (deep 3): a custom OP that creates its JWT-profile verifier ONCE (op.NewJWTProfileVerifier takes a fixed issuer) and
+// hands the same object to every request - the stock *op.Provider builds one per request.  Everything else is the embedded provider.
+type c14LongLivedOP struct {
+	*op.Provider
+	v *op.JWTProfileVerifier
+}
+
+func (p *c14LongLivedOP) JWTProfileVerifier(context.Context) *op.JWTProfileVerifier { return p.v }
+
+// c14Transport (deep 3): the library's CLIENT packages (profile, rs, rp) talk HTTP; this transport delivers their requests to the
+// provider under test in-process (same observation as bed.Do: status, body, storage journal) at the virtual host of the case
+type c14Transport struct {
+	cb   *c14epBed
+	host string
+	last *opbed.Resp
+	form url.Values // the form the client library sent
+}
+
+func (t *c14Transport) RoundTrip(req *http.Request) (*http.Response, error) {
+	var body []byte
+	if req.Body != nil {
+		body, _ = io.ReadAll(req.Body)
+	}
+	target := req.URL.Path
+	if req.URL.RawQuery != "" {
+		target += "?" + req.URL.RawQuery
+	}
+	sreq, _ := http.NewRequest(req.Method, target, bytes.NewReader(body))
+	sreq.RequestURI = target
+	sreq.RemoteAddr = "192.0.2.1:1234"
+	sreq.Host = req.URL.Host
+	for k, v := range req.Header {
+		sreq.Header[k] = v
+	}
+	t.form, _ = url.ParseQuery(string(body))
+	t.last = t.cb.Bed.Do(t.cb.at(sreq, t.host))
+	return &http.Response{StatusCode: t.last.Status, Status: http.StatusText(t.last.Status), Header: t.last.Header, Body: io.NopCloser(bytes.NewReader(t.last.Body)),
+		Request: req, Proto: "HTTP/1.1", ProtoMajor: 1, ProtoMinor: 1, ContentLength: int64(len(t.last.Body))}, nil
+}
+
+var c14Discard = slog.New(slog.NewTextHandler(io.Discard, nil))
 
 type c14epBed struct {
 	*opbed.Bed
@@ -109,7 +162,12 @@ func c14EndpointStream(r *hx.Rand, tier string, n int, w *bufio.Writer, caseNo *
 	ctx := context.Background()
 	for h := 0; h < n; h++ {
 		router := hx.Pick(r, "provider", "legacy")
-		issMode := hx.Pick(r, "host", "host", "host", "forwarded", "hostpath", "static")
+		issMode := hx.Pick(r, "host", "host", "host", "forwarded", "hostpath", "static", "static")
+		// (deep 3) verifier lifetime: a static-issuer OP may keep ONE verifier object for all requests
+		vlife := "per-request"
+		if issMode == "static" && r.Chance(65) {
+			vlife = "long-lived"
+		}
 		hosts := []string{""}
 		path := ""
 		if issMode != "static" {
@@ -133,6 +191,23 @@ func c14EndpointStream(r *hx.Rand, tier string, n int, w *bufio.Writer, caseNo *
 				{ep: "device", host: "a.example", client: "pkA", aud: "cross"},
 			}
 		}
+		if h < 2 {
+			vlife = "per-request"
+		}
+		if h == 2 || h == 3 {
+			// (deep 3) histories 2 and 3 (one per router): a static-issuer OP with a LONG-LIVED verifier; client pkB authenticates, then an
+			// assertion naming pkA but signed with pkB's key under pkB's key id, then pkA's genuine assertions, then pkB again
+			router, issMode, hosts, pkjwt, vlife = []string{"provider", "legacy"}[h-2], "static", []string{""}, true, "long-lived"
+			script = []c14Scripted{
+				{ep: "introspect", host: "", client: "pkB", aud: "own"},
+				{ep: "bearer", host: "", client: "pkA", aud: "own", forgeWith: "pkB"},
+				{ep: "bearer", host: "", client: "pkA", aud: "own"},
+				{ep: "code", host: "", client: "pkA", aud: "own", forgeWith: "pkB"},
+				{ep: "code", host: "", client: "pkA", aud: "own"},
+				{ep: "devauth", host: "", client: "pkB", aud: "own"},
+				{ep: "revoke", host: "", client: "pkA", aud: "own"},
+			}
+		}
 		cfg := opbed.Config{Router: router, S256: true, Post: true, PrivateKeyJWT: pkjwt, Refresh: true, Caps: refstore.Caps{TE: true, Device: true}}
 		switch issMode {
 		case "host":
@@ -147,6 +222,14 @@ func c14EndpointStream(r *hx.Rand, tier string, n int, w *bufio.Writer, caseNo *
 		if err != nil {
 			panic(err)
 		}
+		if vlife == "long-lived" {
+			lp := &c14LongLivedOP{Provider: bed.Provider, v: op.NewJWTProfileVerifier(bed.Storage, opbed.Issuer, time.Hour, time.Second)}
+			if router == "legacy" {
+				bed.Handler = op.RegisterLegacyServer(op.NewLegacyServer(lp, *op.DefaultEndpoints), op.AuthorizeCallbackHandler(lp), op.WithFallbackLogger(c14Discard))
+			} else {
+				bed.Handler = op.CreateRouter(lp)
+			}
+		}
 		cb := &c14epBed{Bed: bed, issMode: issMode, path: path, hosts: hosts}
 		cls := c14Clients()
 		byID := map[string]*c14Client{}
@@ -160,6 +243,7 @@ func c14EndpointStream(r *hx.Rand, tier string, n int, w *bufio.Writer, caseNo *
 		stats["ep-issuer-mode-"+issMode]++
 		stats[fmt.Sprintf("ep-issuers-%d", len(hosts))]++
 		stats["ep-router-"+router]++
+		stats["ep-vlife-"+vlife+"-"+router]++
 		do := func(req *http.Request, host string) *opbed.Resp { return bed.Do(cb.at(req, host)) }
 
 		// grant material made WITHOUT any assertion: a code through the real authorization endpoint
@@ -235,8 +319,12 @@ func c14EndpointStream(r *hx.Rand, tier string, n int, w *bufio.Writer, caseNo *
 			if wantValid {
 				audKind, mint = "own", hx.Pick(r, "helper", "manual")
 			}
+			forgeWith := ""
 			if o < len(script) {
 				audKind, mint = script[o].aud, "helper"
+				if forgeWith = script[o].forgeWith; forgeWith != "" {
+					mint = "manual"
+				}
 			}
 			otherHost := host
 			if len(hosts) > 1 {
@@ -261,7 +349,7 @@ func c14EndpointStream(r *hx.Rand, tier string, n int, w *bufio.Writer, caseNo *
 			}
 			ck := cl.keys[r.Intn(len(cl.keys))]
 			l := hx.NewLine("C14").I("case", int64(*caseNo)).I("h0", int64(h0)).S("kind", "endpoint").S("router", router).S("issmode", issMode).
-				S("host", host).S("req.iss", reqIssuer).S("aud", audKind).S("mint", mint).B("cfg.pkjwt", pkjwt)
+				S("host", host).S("req.iss", reqIssuer).S("aud", audKind).S("mint", mint).B("cfg.pkjwt", pkjwt).S("vlife", vlife)
 			iss := cl.c.ID
 			var tok string
 			proper := false // made by the library helper, for the addressed issuer, with a key registered for a private_key_jwt client
@@ -290,6 +378,9 @@ func c14EndpointStream(r *hx.Rand, tier string, n int, w *bufio.Writer, caseNo *
 				if wantValid {
 					variant = 14
 				}
+				if forgeWith != "" {
+					variant = 3
+				}
 				switch variant {
 				case 0:
 					iss, sub = "unknown", "unknown"
@@ -299,6 +390,9 @@ func c14EndpointStream(r *hx.Rand, tier string, n int, w *bufio.Writer, caseNo *
 					signKey = hx.Pick(r, hx.Keys()[1], hx.Keys()[0], hx.Keys()[6])
 				case 3: // another client's key AND key id
 					other := hx.Pick(r, byID["pkA"], byID["pkB"])
+					if forgeWith != "" {
+						other = byID[forgeWith]
+					}
 					signKey, kid = other.keys[0].k, other.keys[0].kid
 				case 4:
 					kid = hx.Pick(r, "", "zz")
@@ -399,7 +493,6 @@ func c14EndpointStream(r *hx.Rand, tier string, n int, w *bufio.Writer, caseNo *
 				}
 			}
 			l.S("v.iss", reqIssuer).I("v.maxiat", int64(time.Hour)).I("v.off", int64(time.Second))
-			sy.tokenKV(l, tok)
 			// order: which issuer did this provider serve first, and where does this assertion point
 			order := "first"
 			if served {
@@ -434,10 +527,69 @@ func c14EndpointStream(r *hx.Rand, tier string, n int, w *bufio.Writer, caseNo *
 				firstHost, served = host, true
 			}
 			l.S("first.iss", cb.issuerOf(firstHost))
+			// (deep 3) how the assertion gets on the wire: by hand (opbed.Auth), or by the library's own client code -
+			//   formauth:     client.ClientAssertionFormAuthorization(assertion) writes the form parameters (any endpoint with client authentication)
+			//   rpcode:       rp.CodeExchange(…, rp.WithClientAssertionJWT(assertion)) = client.ClientAssertionCodeOptions through oauth2 (code grant)
+			//   tokensource:  profile.NewJWTProfileTokenSource(issuer, client, kid, key, …).TokenCtx: mints AND sends the jwt-bearer grant itself
+			//   rsintrospect: rs.NewResourceServerJWTProfile(issuer, client, kid, key, …) + rs.Introspect: mints AND authenticates itself
+			wire := "manual"
+			selfMint := mint == "helper" && audKind == "own" && o >= len(script)
+			switch {
+			case ep == "bearer" && selfMint && r.Chance(65):
+				wire = "tokensource"
+			case ep == "introspect" && selfMint && r.Chance(65):
+				wire = "rsintrospect"
+			case ep == "code" && o >= len(script) && r.Chance(35):
+				wire = "rpcode"
+			case ep != "bearer" && o >= len(script) && r.Chance(35):
+				wire = "formauth"
+			}
+			tr := &c14Transport{cb: cb, host: host}
+			hc := &http.Client{Transport: tr}
+			base := "http://op.internal"
 			waitClearOfSecondEdge()
 			t0 := time.Now()
-			resp := do(bed.Form(pathOf, form, auth), host)
+			var resp *opbed.Resp
+			switch wire {
+			case "formauth":
+				client.ClientAssertionFormAuthorization(tok)(form)
+				resp = do(bed.Form(pathOf, form, opbed.Auth{Kind: "none"}), host)
+			case "rpcode":
+				conf := &oauth2.Config{ClientID: owner, RedirectURL: "https://rp.example/cb",
+					Endpoint: oauth2.Endpoint{AuthURL: base + "/authorize", TokenURL: base + "/oauth/token", AuthStyle: oauth2.AuthStyleInParams}}
+				if rpc, err := rp.NewRelyingPartyOAuth(conf, rp.WithHTTPClient(hc)); err == nil {
+					rp.CodeExchange[*oidc.IDTokenClaims](ctx, form.Get("code"), rpc, rp.WithClientAssertionJWT(tok))
+				}
+				resp = tr.last
+			case "tokensource":
+				if src, err := profile.NewJWTProfileTokenSource(ctx, reqIssuer, cl.c.ID, ck.kid, pemOf(ck.k), scopeReq,
+					profile.WithStaticTokenEndpoint(reqIssuer, base+"/oauth/token"), profile.WithHTTPClient(hc)); err == nil {
+					src.TokenCtx(ctx)
+				}
+				resp = tr.last
+				if resp != nil {
+					tok = tr.form.Get("assertion")
+					recordHelperSig(sy, tok, ck.k, ck.kid)
+				}
+			case "rsintrospect":
+				if rsv, err := rs.NewResourceServerJWTProfile(ctx, reqIssuer, cl.c.ID, ck.kid, pemOf(ck.k),
+					rs.WithStaticEndpoints(base+"/oauth/token", base+"/oauth/introspect"), rs.WithClient(hc)); err == nil {
+					rs.Introspect[*oidc.IntrospectionResponse](ctx, rsv, subjectToken[host])
+				}
+				resp = tr.last
+				if resp != nil {
+					tok = tr.form.Get("client_assertion")
+					recordHelperSig(sy, tok, ck.k, ck.kid)
+				}
+			}
+			if resp == nil { // the client library produced no request (e.g. an Ed25519 / P-384 key it cannot sign with): by hand
+				wire = "manual"
+				resp = do(bed.Form(pathOf, form, auth), host)
+			}
 			t1 := time.Now()
+			l.S("wire", wire)
+			stats["ep-wire-"+wire+"-"+ep]++
+			sy.tokenKV(l, tok)
 			l.I("now0", t0.UnixNano()).I("now1", t1.UnixNano())
 			ok := resp.Status == 200 && !resp.Panicked
 			switch ep {
@@ -478,6 +630,7 @@ func c14EndpointStream(r *hx.Rand, tier string, n int, w *bufio.Writer, caseNo *
 			stats["ep-"+router+"-"+ep+"-"+obs]++
 			stats["ep-aud-"+audKind]++
 			stats["ep-mint-"+mint]++
+			stats["ep-vlife-"+vlife+"-"+ep+"-"+obs]++
 			emitLine(l)
 		}
 	}
